@@ -458,8 +458,10 @@ class Monitors:
             self.check_annotations(ranks)
         if 'C13' in self.oracles and status == 'completed' and self.cli['task'] == 'ranking' and exp_batches:
             self.check_value_repetitions(outdir)
-        if 'C13' in self.oracles and self.cli['task'] == 'identify_rare_values' and exp_batches and status in ('completed', 'exit'):
+        if 'C13' in self.oracles and self.cli['task'] == 'identify_rare_values' and exp_batches and status in ('completed', 'exit', 'exception'):
+            before = len(self.violations)
             self.check_rare_report(outdir)
+            res['rare_report_ok'] = len(self.violations) == before
         if 'C07' in self.oracles and status == 'completed' and self.cli['task'] == 'ranking' and exp_batches:
             self.check_counts_json(outdir)
         return res
